@@ -72,6 +72,10 @@ func simpleExpr(info *types.Info, e ast.Expr) bool {
 		return true
 	case *ast.Ident, *ast.BasicLit:
 		return true
+	case *ast.FuncLit:
+		// a literal that refers to nothing but its own parameters and package-level names denotes the same function
+		// wherever and however often it is evaluated
+		return closedFuncLit(info, x)
 	case *ast.ParenExpr:
 		return simpleExpr(info, x.X)
 	case *ast.SelectorExpr:
@@ -288,4 +292,40 @@ func effectFree(e ast.Expr) bool {
 	// but a helper's result expression that the caller ignores was evaluated before the rewriting too, so only the
 	// order matters, and simple expressions have no effects to order
 	return simpleExpr(nil, e)
+}
+
+// closedFuncLit: the literal captures no local variable: every identifier it uses is declared inside it, or denotes a
+// package-level object, an imported package, or a universe name.
+func closedFuncLit(info *types.Info, lit *ast.FuncLit) bool {
+	if info == nil {
+		return false
+	}
+	closed := true
+	ast.Inspect(lit, func(q ast.Node) bool {
+		id, ok := q.(*ast.Ident)
+		if !ok || !closed {
+			return closed
+		}
+		obj := info.Uses[id]
+		if obj == nil {
+			return true // a definition, a field key, a label
+		}
+		switch o := obj.(type) {
+		case *types.PkgName, *types.Nil, *types.Builtin, *types.Const, *types.TypeName, *types.Func:
+			return true
+		case *types.Var:
+			if o.IsField() {
+				return true
+			}
+			if o.Pkg() != nil && o.Parent() == o.Pkg().Scope() {
+				return true // package-level variable: the same variable wherever the literal is evaluated
+			}
+			if o.Pos() >= lit.Pos() && o.Pos() < lit.End() {
+				return true // declared inside the literal
+			}
+			closed = false
+		}
+		return closed
+	})
+	return closed
 }
